@@ -231,6 +231,8 @@ func (e *Engine) runFunc(c *Ctx, ct *Contract, fd *ast.FuncDecl) {
 		c.params = append(c.params, paramInfo{p.Name(), v, p.Type()})
 	}
 	body := fd.Body
+	x.aliasAnalyse(fd.Body)
+	x.aliasParams(sig)
 	// iterator constructors: `return func(yield ...) {...}` with a `yields` contract
 	if ct.Yields != "" {
 		if len(body.List) < 1 {
